@@ -50,7 +50,7 @@ func runPlan(env *psEnv, kind string, data []byte, chunks []int, eofWithData, se
 
 func runC12(r *rt.Runner) {
 	env := newPSEnv()
-	nIn := r.N(480, 16000)
+	nIn := r.N(800, 16000)
 	for k := 0; k < nIn; k++ {
 		r.Case("delivery", func(c *rt.C) {
 			rng := c.Rand()
@@ -122,7 +122,7 @@ func runC12(r *rt.Runner) {
 	}
 
 	// multi-call clause
-	nMC := r.N(3000, 200000)
+	nMC := r.N(20000, 200000)
 	for k := 0; k < nMC; k++ {
 		r.Case("multi-call", func(c *rt.C) {
 			rng := c.Rand()
